@@ -171,6 +171,25 @@ def random_files(rng, P, n, alpha):
     return out
 
 
+def long_line_files(P):
+    """entry lines and foreign lines whose length sits at the usual fixed-buffer sizes (PATH_MAX 4096, stdio 4096/8192, 64 KiB is left to thorough):
+    the entry followed by a long comment, by many blanks, by many other libraries; a long foreign line and a long comment around a short entry"""
+    out = []
+    words = b"/opt/vendor/hook.so deployed by config management, do not remove "
+
+    def fill(n):
+        return (words * (n // len(words) + 1))[:n]
+    for total in (4094, 4095, 4096, 4097, 4100, 6000, 8191, 8192, 8193):
+        n = total - len(P)
+        out.append(P + b" # " + fill(n - 3) + b"\n/lib/after.so\n")                  # entry + trailing comment, line of `total` bytes
+        if total in (4096, 8192):
+            out.append(b"/lib/before.so\n" + P + b" " * n)                              # entry + blanks, last line without newline
+            out.append(P + b" " + fill(n - 1).replace(b",", b" ") + b"\n# end\n")        # entry shares a long line with other tokens
+            out.append(fill(total) + b"\n" + P + b"\n")                                 # long foreign line before the entry
+            out.append(b"# " + fill(total - 2) + b"\n" + P + b"#c\n")                    # long comment before the entry
+    return out
+
+
 def case(P, content, ops):
     return "\t".join(["run", hexs(P), hexs(content), ops])
 
